@@ -103,11 +103,14 @@ static void run_crypt(uint64_t idx, pv_rng* rng) {
     uint8_t mask_used[32]; memcpy(mask_used, pv_w->kdf_mask, 32);
     int napp = 1 + (int)pv_randn(rng, 5);
     bool ok = true;
-    /* (1) same password twice: bit-for-bit restoration */
+    /* (1) same password twice: bit-for-bit restoration.  Once the KDF arguments are wrong the model (which follows the
+     * mask the monitor handed out) is no longer meaningful for this case: the violation is recorded and the case ends. */
     ok &= apply(s, &m, pw, cls);
+    if (!ok) goto done;
     ok &= verify(s, &m, rng, "after 1 application");
     if (((m.features ^ m0.features) & 16) == 0) pv_fatal("C12: model flag did not toggle");
     ok &= apply(s, &m, pw, cls);
+    if (!ok) goto done;
     if (!pv_mseed_eq(&m, &m0)) pv_fatal("C12: model crypt is not an involution");
     { const char* mm = pv_seed_mismatch(s, &m0, 0); if (mm) { ok = false; pv_violation("C12/not-an-involution", "[%s] password '%s' applied twice does not restore the seed: %s", cls, pv_esc(pw), mm); } else PV_COUNT("involution.restored", 1); }
     /* (2) further applications with equal and different passwords, verifying after each */
@@ -116,9 +119,11 @@ static void run_crypt(uint64_t idx, pv_rng* rng) {
         if (pv_randn(rng, 2)) { p2 = pv_gen_password(rng, &c2); char* n2 = pv_nfkd_alloc(p2); bool fits = strlen(n2) < POLYSEED_STR_SIZE; free(n2); if (fits) use = p2; else c2 = cls; }
         if (ms != 0 && pv_randn(rng, 2)) { if (pv_randn(rng, 2)) boundary_mask(rng, pv_w->kdf_mask); else pv_randbytes(rng, pv_w->kdf_mask, 32); }
         ok &= apply(s, &m, use, c2);
-        ok &= verify(s, &m, rng, "after repeated application");
+        if (ok) ok &= verify(s, &m, rng, "after repeated application");
         free(p2);
+        if (!ok) break;
     }
+done:
     if (ok) { PV_DISTINCT("nontrivial", pv_mix(pv_mix(pv_mseed_hash(&m0), pv_hash_str(pw)), pv_hash(mask_used, 32, ms))); PV_COUNT("cases.all_clauses_held", 1); }
     if (idx < 8) pv_sample("crypt", "[%s] seed %s password '%s' mask %s: %d+2 applications", cls, pv_mseed_str(&m0), pv_esc(pw), ms ? pv_hex(mask_used, 32) : "(argument mix)", napp);
     pv_w->kdf_mode = 0;
